@@ -140,6 +140,18 @@ fn long_texts(ctx: &mut Ctx) {
         texts.push((format!("[{}a]", "a, ".repeat(n * 20)), 40 * n + 3));
         texts.push((format!("{{{}z: a}}", (0..n * 5).map(|i| format!("k{i}: a, ")).collect::<String>()), 20 * n + 5));
     }
+    // map literals of 2 .. 1000 items in which one key occurs twice (or three times) with different values, at every distance: the later item wins
+    for n in [2usize, 3, 8, 16, 20, 21, 32, 33, 34, 48, 64, 65, 100, 257, 1_000] {
+        for (first, second) in [(0usize, 1usize), (0, n / 2), (0, n - 1), (n / 3, n - 1), (n / 2, n / 2 + 1), (1, n - 2)] {
+            if first >= second || second >= n {
+                continue;
+            }
+            let items: Vec<String> = (0..n).map(|i| if i == first || i == second { format!("dup: i{i}") } else if i % 10 == 9 { format!("dup2: i{i}") } else { format!("k{i:03}: i{i}") }).collect();
+            texts.push((format!("{{{}}}", items.join(", ")), 9));
+            let shuffled: Vec<String> = (0..n).rev().map(|i| if i == first || i == second { format!("dup: \"v{i}\"") } else { format!("z{:03}: i{i}", (i * 7) % n) }).collect();
+            texts.push((format!("{{{},}}", shuffled.join(", ")), 9));
+        }
+    }
     ctx.align();
     for (t, ntok) in texts {
         if !ctx.mine() {
